@@ -183,6 +183,9 @@ def coq_eval(name, text, timeout=900):
     path = os.path.join(d, f'{name}.v')
     with open(path, 'w') as f:
         f.write(text)
+    if os.environ.get('LV_KEEP_COQ'):            # debugging aid: keep a copy of every evaluated scratch file
+        os.makedirs(os.environ['LV_KEEP_COQ'], exist_ok=True)
+        shutil.copy(path, os.environ['LV_KEEP_COQ'])
     rc, out, dt = _run(['coqc', '-Q', COQ, 'LT', '-w', '-deprecated-hint-without-locality,-notation-overridden',
                         path], timeout, cwd=d)
     if rc != 0:
@@ -199,6 +202,16 @@ def parse_nat_list(out, marker=None):
     if body in ('nil', '[]'):
         return []
     return [int(x) for x in re.findall(r'\d+', body)]
+
+
+def decode_strs(out):
+    """Coq prints a [str] as a list of code points: turn every such list in `out` back into a quoted string."""
+    def one(m):
+        try:
+            return json.dumps(''.join(chr(int(x)) for x in re.findall(r'(\d+)%N', m.group(0))))
+        except (ValueError, OverflowError):
+            return m.group(0)
+    return re.sub(r'\[\s*\d+%N(?:;\s*\d+%N)*\s*\]', one, out)
 
 
 def coq_failing(name, imports, case_terms, checker, shard=400, timeout=900, jobs=8):
